@@ -25,6 +25,13 @@ CHECKS = {
             'compared bit-for-bit with a native World built from the same arguments at every lattice point and for every request list of length <= 2, and the declaration files must appear exactly in the requested directory.',
             'Argument alphabet as stated (3 flag pointers, 3 directory strings, 3 seeds, 4 worlds); thorough tier equals quick tier because the space is already the full product.',
             'DESIGN.md section 3 C16'),
+    'C02': ('exploration', 'E1',
+            'bounded exhaustive enumeration of ordered feature lists (all lists of <= 2|3 features with all mode assignments, deviation-bounded for 3|4) on the real library against a reference fold',
+            'Every ordered list (with repetition) of features from six templates - one per feature type, overlapping footprints - with every assignment of replace / replace defined only / add / '
+            'subtract / no models / temperature-only is built and compared bit-for-bit with a reference fold written from the documentation: background, then in file order each covering feature '
+            'applies its models; tag of the last covering feature. Deleted and permuted lists are all members of the enumerated space and tied to the same fold.',
+            'Membership of a point in a single feature is taken from the implementation (geometry is C04/C06); uniform models only; list length bound as stated.',
+            'DESIGN.md section 3 C02'),
 }
 NOT_YET = {}
 
